@@ -42,7 +42,8 @@ def run(tier):
     conform("stable", ["untrusted-pwstr", sf, o, ck.seed, 20000 if thorough else 2000], timeout=3000)
     _merge(ck, json.load(open(o)))
     entries = len(set(x["e"] for x in table[0]))
-    ck.cov["distinct_nontrivial"] = ck.cov["evaluations"]
+    if not ck.cov["distinct_nontrivial"]:
+        ck.cov["distinct_nontrivial"] = ck.cov["evaluations"]
     ck.cov["entry_points"] = entries
     ck.cov["grammar_strings"] = n
     ck.cov["rule"] = ("entry points = the table of Untrusted.tla (%d); each with EVERY length 0..2*overhead+64 x {zeros, 0xff, random, valid prefix, valid with one bit flipped, authentic}; "
